@@ -343,8 +343,10 @@ def oracle(op, out, backend):
             return f"years/months reported {o[3:5]} given |{(y, mo)}|"
         N = abs(P)
         target = abs(P)
-    if not in_domain(op):
-        return None
+    # beyond the float-exact range the integer statements (sign, canonical ranges, exact sum, rebuild) are still checked:
+    # since the fix "Duration normalisation is exact" the breakdown is computed on integer microseconds on the whole range;
+    # only the float-valued total_*() / in_*() are left to the float-exact range
+    wide = not in_domain(op)
     wk, rd, hh, mm, ss, uu = o[5:11]
     sg = -1 if target < 0 else 1
     for name, v, lim in (("weeks", wk, None), ("remaining_days", rd, 7), ("hours", hh, 24), ("minutes", mm, 60),
@@ -360,6 +362,8 @@ def oracle(op, out, backend):
     if o[11] != inv:
         return f"invert={o[11]} expected {inv}"
     exp_in = [_trunc(N, u) for _, u in _UNIT_US]
+    if wide:
+        return None if (kind != "dur" or o[17] == 1) else "rebuilding the Duration from its own components gives a different Duration"
     if o[12:17] != exp_in:
         return f"in_weeks..in_seconds {o[12:17]} expected {exp_in} (truncation of total_seconds())"
     if kind == "dur":
